@@ -1,4 +1,4 @@
-/*
+/* (mirror of harness/C01/calctree.c: keep the two files identical)
  * C01/calctree: the htree index e2fsck writes when it rebuilds a directory (pass 3A / -D) is
  * one that e2fsck -fn accepts: the REAL calculate_tree(), alloc_blocks(), set_root_node(),
  * set_int_node(), get_next_block() (rehash.c) at a scaled block size of 64 bytes (root holds 4
